@@ -19,6 +19,11 @@ def statements(tier: str):
             for el in elems:
                 for neg in ("", "not "):
                     out.append(("old", f"a :- {neg}{lb}{{ {el} }}{ub}."))
+    for el in ("not not p(_)", "not not r(_,X) : q(X)", "not p(_)", "r(_,_)", "not not r(X,_) ; p(_)", "not not p(1;2)",
+               "p(_) : q(_)"):
+        for lb in ("", "1 "):
+            out.append(("old", f"a :- {lb}{{ {el} }}."))
+            out.append(("old", f"a(N) :- N = {{ {el} }}, q(N)."))
     out.append(("old", "a(N) :- N = { p(X) }."))
     out.append(("old", "a(Y) :- q(Y), Y { p(X) ; r(X,Y) }."))
     out.append(("old", "a(Y) :- q(Y), { r(X,Y) } = 1."))
@@ -48,6 +53,10 @@ def statements(tier: str):
         out.append(("chain", f"a :- q(X), p(Y) : q(Y), {c}."))
         out.append(("chain", f"a(S) :- S = #sum {{ Y : p(Y), {c.replace('X', '1')} }}."))
         out.append(("chain", f"a :- 1 {{ p(Y) : q(Y), {c.replace('X', '1')} }}."))
+    for c in ("X < (1;2) < Y", "0 < (1..3) < X", "not X < (1;2) < Y", "X < Y < (2;3)", "(0;1) < X < Y", "3 < (1..4) < 2",
+              "X < (Y;Y+1) <= 3"):
+        out.append(("chain", f"a(X,Y) :- p(X), q(Y), {c}."))
+        out.append(("chain", f"a :- q(X), p(Y) : q(Y), {c}."))
     out.append(("chain", ":~ p(X), q(Y), 0 < X < Y. [1@1,X,Y]"))
     out.append(("chain", ":~ p(X), q(Y), not 0 < X < Y. [1@1,X,Y]"))
     # pools
@@ -69,6 +78,9 @@ def statements(tier: str):
               "a(X+1,X+1) :- p(X).", "a(X) :- p(X), q(X+1), q(X+1).", "1 { a(X+1) : p(X) } 1."):
         out.append(("arith", s))
     # X = t equalities
+    for s in ("a(X) :- f(X), X = g(_).", "a(X) :- f(X), X = g(_,Y), q(Y).", "a :- f(X), X = g(_), not f(g(1)).",
+              "a(X) :- f(X), g(_) = X.", "a :- q(Y), p(X) : f(X), X = g(_).", "a(X) :- f(X), not X != g(_)."):
+        out.append(("eq", s))
     for t in ("Y", "Y+1", "f(Y)", "2*Y", "1..2", "(Y;1)", "Y-1", "-Y", "|Y|", "Y*Y", "Y/2"):
         out.append(("eq", f"a(X) :- q(Y), X = {t}."))
         out.append(("eq", f"a(X) :- q(Y), {t} = X."))
@@ -77,6 +89,9 @@ def statements(tier: str):
         out.append(("eq", f"a :- q(Y), p(X) : X = {t}, q(X)."))
         out.append(("eq", f"a(S) :- q(Y), S = #sum {{ X : X = {t}, p(X) }}."))
         out.append(("eq", f"a(X) :- q(Y), not X != {t}, p(X)."))
+        out.append(("eq", f"a(X) :- q(Y), not not X != {t}, p(X)."))
+        out.append(("eq", f"a(X) :- q(Y), not not X = {t}, p(X)."))
+        out.append(("eq", f"a(S) :- q(Y), S = #sum {{ X : not not X != {t}, p(X) }}."))
         out.append(("eq", f":~ q(Y), X = {t}. [X@1]"))
     for t in ("Y+1", "Y", "2*Y", "Y-1"):
         out.append(("eq", f"a(X) :- p(X), q(Y) : r(Y,_), X = {t}."))
@@ -120,6 +135,8 @@ def universe(prog: str, tier: str) -> list[str]:
         u.append("a")
     if "b(" in prog:
         u.append("b(1)")
+    if "f(X)" in prog:  # function terms as values
+        u = ["f(g(1))", "f(g(2))", "f(g(1,2))", "f(1)", "q(1)", "q(2)"] + [x for x in u if x.startswith("a")]
     return u
 
 
